@@ -160,23 +160,65 @@ Definition sse_over_chunked (reads : list bytes) : option (list event * option b
   | (Live _ _, os) => sse_result (feeds sse_stage sse_start (map k_data (somes os)))
   end.
 
+(* ------------------------------ Respondent.leid / .retry across connections *)
+(* Respondent keeps .leid and .retry for its whole life; every event-stream
+   response gets a fresh EventSource.  After each eventSource.parse() it copies
+   the source's values when they are not None. *)
+Definition rtrack : Type := option bytes * N.
+Definition sync (r : rtrack) (e : est) : rtrack :=
+  (match s_id e with Some i => Some i | None => fst r end,
+   match s_retry e with Some n => n | None => snd r end).
+Definition sync_p (r : rtrack) (p : pstate sst) : rtrack :=
+  match p with Live s _ => sync r (snd s) | Dead _ => r end.
+
+(* close-delimited body: every read is appended to the body, the event parser
+   stepped, the values synced; the trace is (.leid, .retry) after every read *)
+Fixpoint trace_plain (p : pstate sst) (r : rtrack) (reads : list bytes) : list rtrack :=
+  match reads with
+  | [] => []
+  | c :: cs => let p' := fst (feed sse_stage p c) in
+               let r' := sync_p r p' in r' :: trace_plain p' r' cs
+  end.
+
+(* chunked body: the same after every data chunk *)
+Fixpoint sse_chunks (p : pstate sst) (r : rtrack) (datas : list bytes) : pstate sst * rtrack :=
+  match datas with
+  | [] => (p, r)
+  | d :: ds => let p' := fst (feed sse_stage p d) in sse_chunks p' (sync_p r p') ds
+  end.
+Definition data_chunks (os : list (option chunk)) : list bytes :=
+  map k_data (filter (fun ch => negb (N.eqb (k_size ch) 0)) (somes os)).
+Fixpoint trace_chunked (cp : pstate cstate) (p : pstate sst) (r : rtrack) (reads : list bytes) : list rtrack :=
+  match reads with
+  | [] => []
+  | c :: cs => let (cp', os) := feed chunk_stage cp c in
+               let (p', r') := sse_chunks p r (data_chunks os) in
+               r' :: trace_chunked cp' p' r' cs
+  end.
+
 (* ---------------------------------------------------------- correspondence *)
 Inductive mode := MPlain | MChunked.
-Record case := {
+Record conn := {
   c_mode : mode;
   c_reads : list bytes;
   c_events : list event;
-  c_leid : option bytes;
+  c_leid : option bytes;   (* EventSource.leid afterwards *)
   c_retry : option N;
   c_err : bool;            (* an HTTPException (LineTooLong, InvalidChunk) ended the parse *)
-  c_left : bytes           (* EventSource.raw afterwards (compared when no error) *)
+  c_left : bytes;          (* EventSource.raw afterwards (compared when no error) *)
+  c_init : option rtrack;  (* through a Respondent: its (.leid, .retry) when the response starts *)
+  c_trace : list rtrack    (* ... and after every read *)
 }.
+(* a case is a history of event-stream responses on one Respondent *)
+Definition case : Type := list conn.
 
 Definition event_eqb (a b : event) : bool :=
   option_eqb bytes_eqb (ev_id a) (ev_id b) && bytes_eqb (ev_name a) (ev_name b)
   && bytes_eqb (ev_data a) (ev_data b).
+Definition rtrack_eqb (a b : rtrack) : bool :=
+  option_eqb bytes_eqb (fst a) (fst b) && N.eqb (snd a) (snd b).
 
-Definition check_result (x : pstate sst * list (option event)) (c : case) : bool :=
+Definition check_result (x : pstate sst * list (option event)) (c : conn) : bool :=
   match x with
   | (Dead _, os) => c_err c && list_eqb event_eqb (somes os) (c_events c)
   | (Live s b, os) =>
@@ -185,7 +227,19 @@ Definition check_result (x : pstate sst * list (option event)) (c : case) : bool
     && bytes_eqb (raw_of (fst s) b) (c_left c)
   end.
 
-Definition check_case (c : case) : bool :=
+Definition check_trace (c : conn) : bool :=
+  match c_init c with
+  | None => true
+  | Some r0 =>
+    list_eqb rtrack_eqb
+      (match c_mode c with
+       | MPlain => trace_plain sse_start r0 (c_reads c)
+       | MChunked => trace_chunked (Live CSize []) sse_start r0 (c_reads c)
+       end) (c_trace c)
+  end.
+
+Definition check_conn (c : conn) : bool :=
+  check_trace c &&
   match c_mode c with
   | MPlain => check_result (feeds sse_stage sse_start (c_reads c)) c
   | MChunked =>
@@ -197,6 +251,7 @@ Definition check_case (c : case) : bool :=
     | (Live _ _, os) => check_result (feeds sse_stage sse_start (map k_data (somes os))) c
     end
   end.
+Definition check_case (c : case) : bool := forallb check_conn c.
 
 (* branch ids: 0 need 1 too long 2 dispatch 3 blank without data 4 comment
    5 event 6 data 7 id 8 id with NUL 9 retry ok 10 retry ignored 11 other field *)
@@ -228,8 +283,9 @@ Fixpoint branches_reads (p : pstate sst) (reads : list bytes) : list nat :=
   | c :: cs, Live s b =>
     let (l, p') := branches_run (S (length (b ++ c))) s (b ++ c) in l ++ branches_reads p' cs
   end.
-Definition case_branches (c : case) : list nat :=
+Definition conn_branches (c : conn) : list nat :=
   match c_mode c with
   | MPlain => branches_reads sse_start (c_reads c)
   | MChunked => branches_reads sse_start (map k_data (somes (snd (feeds chunk_stage (Live CSize []) (c_reads c)))))
   end.
+Definition case_branches (c : case) : list nat := flat_map conn_branches c.
